@@ -19,9 +19,33 @@ func genC08(r *rand.Rand, run int, tier string) *vm.Plan {
 	var blds, bbs, blks []int
 	bbParent := map[int]int{}
 	blkParent := map[int]int{}
-	bld := h.add(vm.Op{K: "bld", A: key, Ent: entropy(r), RootID: h.ids[key], Out: h.slot()})
+	if run%5 == 3 && len(h.base) == 0 {
+		h.base = []string{"tenant-a", "zone", "quota"}
+	}
+	bld := h.add(vm.Op{K: "bld", A: key, Ent: entropy(r), RootID: h.ids[key], Base: h.base, Out: h.slot()})
 	blds = append(blds, bld)
 	h.add(vm.Op{K: "bldadd", A: bld, Blk: blkp(g.Block(4, 2, 1))})
+	if r.Intn(3) == 0 {
+		// an issuer with several token builders alive at once (all made with the same options): what
+		// one of them is given in the meantime is no business of the others
+		var late []int
+		for n := 1 + r.Intn(2); n > 0; n-- {
+			b2 := h.add(vm.Op{K: "bld", A: key, Ent: entropy(r), RootID: h.ids[key], Base: h.base, Out: h.slot()})
+			blds = append(blds, b2)
+			h.add(vm.Op{K: "bldadd", A: b2, Blk: blkp(g.Block(3, 1, 1))})
+			if r.Intn(2) == 0 {
+				h.add(vm.Op{K: "bldadd", A: bld, Blk: blkp(g.Block(2, 1, 0))})
+			}
+			late = append(late, b2)
+		}
+		r.Shuffle(len(late), func(i, j int) { late[i], late[j] = late[j], late[i] })
+		for _, b2 := range late {
+			t := h.add(vm.Op{K: "bldbuild", A: b2, Out: h.slot()})
+			h.toks = append(h.toks, t)
+			h.honest = append(h.honest, t)
+			h.tokKey[t] = key
+		}
+	}
 	t0 := h.add(vm.Op{K: "bldbuild", A: bld, Out: h.slot()})
 	h.toks = append(h.toks, t0)
 	h.honest = append(h.honest, t0)
